@@ -204,7 +204,7 @@ def run(R):
         R.oracle_failure("harness-crash", "the Go harness aborted (panic in the code under test or deadlock)", dict(output=out[-3000:], seed=R.seed, n=n))
         return R.finish()
     finds, cases, _ = analyse(R, runner, trace, "generated")
-    report(R, runner, finds, cases, budget=60 if R.quick else 200)
+    report(R, runner, finds, cases, budget=150 if R.quick else 400)
     return R.finish()
 
 
